@@ -308,7 +308,20 @@ func aggBattery(c *Ctx, a *aggMembers, valueSemantics bool) {
 		}
 		// a receiver with a copy-on-write history: clone of an origin, one chunk made private by a write (mixed flags);
 		// AndAny must leave the origin exactly as it was
-		if om := x.M; !om.IsEmpty() {
+		if !x.M.IsEmpty() {
+			// the origin also owns chunks that no member has (they drop out of the receiver, so the slots behind them move)
+			om := x.M.Clone()
+			for k := 0; k < 1+r.Intn(3); k++ {
+				key := edgeVal32(r, om) >> 16
+				if r.Chance(0.6) {
+					if mn, ok := om.Min(); ok && mn>>16 > 0 {
+						key = r.Range(0, mn>>16-1) // in front of everything
+					}
+				}
+				if u.CountRange(key<<16, key<<16|0xFFFF) == 0 {
+					om.Add(key<<16 | edgeVal16(r))
+				}
+			}
 			origin, es := buildForm(r, om, formsNoZC[r.Intn(len(formsNoZC))])
 			if es == "" {
 				origin.B.SetCopyOnWrite(true)
@@ -317,6 +330,9 @@ func aggBattery(c *Ctx, a *aggMembers, valueSemantics bool) {
 				ivs := om.Intervals()
 				for k := 0; k < 1+r.Intn(2); k++ {
 					v := ivs[r.Intn(len(ivs))]
+					if r.Chance(0.6) {
+						v = ivs[0] // the first chunk becomes private, the later ones stay shared
+					}
 					y := (v.Lo &^ 0xFFFF) | edgeVal16(r)
 					rc.Add(uint32(y))
 					rm.Add(y)
